@@ -92,6 +92,11 @@ type world struct {
 	set [nRegs]ds.Set[E]
 	ar  ds.SetArithmetic[E]
 	arO map[E]int
+	// ordered maps with pointer / slice / map values
+	tmaps    []tmap
+	tref     [][]refEntry
+	tlast    [][]byte
+	tlastRef [][]refEntry
 }
 
 func newWorld(r *hx.Run) *world {
@@ -774,6 +779,12 @@ func (w *world) exec1(op string) string {
 		}
 
 		return fmt.Sprintf("+%s -%s", showList(ra), showList(rd))
+	case "codec":
+		return "ok"
+	case "tnew", "tset", "tdel", "tenc", "tdec":
+		return w.typedOp(f)
+	case "mforced":
+		return w.mforced(f[1], num(2))
 	case "forced":
 		return w.forced(f[1], f[2])
 	case "stress":
@@ -1057,12 +1068,19 @@ func main() {
 	for _, c := range corpus {
 		runCase(r, 0, c)
 	}
+	for _, c := range typedCorpus() {
+		runCase(r, 0, c)
+	}
 	// lock skeletons of the working tree
 	runCase(r, 0, lockScriptOps())
 	n := 5000 * r.Scale
 	for i := 0; i < n; i++ {
 		rng, sub := r.Rng.Fork()
-		runCase(r, sub, genCase(rng, 40))
+		ops := genCase(rng, 40)
+		if rng.Chance(1, 3) {
+			ops = append(ops, genTyped(rng)...)
+		}
+		runCase(r, sub, ops)
 	}
 	runConcurrent(r)
 	r.Finish()
@@ -1093,4 +1111,20 @@ var corpus = [][]string{
 	// forced schedules and one stress run of every kind
 	{"forced delall apply", "forced addall apply", "forced delall replace", "forced addall compute", "forced delall compute", "forced addall replace"},
 	{"stress single 3 4 1", "stress mut 3 3 2", "stress bulk 3 3 3", "stress all 4 6 4"},
+	// OrderedMap.Clone / ForEach / ForEachReverse on a 1500-entry map while a writer is pending
+	{"mforced clone 1500", "mforced foreach 1500", "mforced foreachrev 1500"},
+}
+
+// typed-value corpus: several entries, decoded into a fresh map (pointer, slice, map values)
+func typedCorpus() [][]string {
+	_, tm := newTypedMaps()
+	var out [][]string
+	for ti := range tm {
+		c := fmt.Sprintf("codec %d %s", ti, strings.Join(tm[ti].tableHex(), " "))
+		out = append(out, []string{c, fmt.Sprintf("tset %d 1 3", ti), fmt.Sprintf("tset %d 2 0", ti), fmt.Sprintf("tset %d 0 8", ti),
+			fmt.Sprintf("tset %d 4 5", ti), fmt.Sprintf("tenc %d", ti), fmt.Sprintf("tnew %d", ti), fmt.Sprintf("tdec %d", ti),
+			fmt.Sprintf("tset %d 5 9", ti), fmt.Sprintf("tdel %d 2", ti), fmt.Sprintf("tdec %d", ti), fmt.Sprintf("tenc %d", ti)})
+	}
+
+	return out
 }
